@@ -457,3 +457,14 @@ def parse_error_trace(out):
         am = re.match(r'(\w+)', label)
         beh.append({"action": am.group(1) if am else label, "args": "", "state": st})
     return beh
+
+
+def parse_error_traces(out):
+    """all counterexamples of a `-continue` run"""
+    parts = re.split(r'Error: Invariant \S+ is violated\.', out)
+    res = []
+    for part in parts[1:]:
+        beh = parse_error_trace(part)
+        if beh:
+            res.append(beh)
+    return res
